@@ -8,7 +8,7 @@ ID = "C09"
 LEVEL = "exploration"
 BUDGET = {"quick": 55, "thorough": 900}
 QUICK_CASES = 700  # generator items in the quick tier (fixed amount of work; BUDGET is then only a safety cap)
-FLOOR = {"quick": 200, "thorough": 1500}
+FLOOR = {"quick": 200, "thorough": 200}  # conclusive cases below which a run is inconclusive (the thorough tier is time-budgeted: same floor)
 TIMEOUT = 120
 HASHSEEDS = {"quick": [0, 1, 2, 3], "thorough": list(range(16))}
 REQUIRED_OBS = ["deactivations", "occurrence_phases", "runs_observed", "residue_snapshots", "startup_runs", "shutdown_runs", "closure_instances", "redefined_at_load", "deleted_while_starting", "start_suspension_injected"]
